@@ -410,9 +410,9 @@ func TestC12Tower(t *testing.T) {
 		t.Fatalf("SELFTEST-FAIL: ref/fptower: %v", err)
 	}
 	vlib.Selftest("ref/fptower", "ok")
-	runRing(t, ringFp2, 6000, 60000)
-	runRing(t, ringFp4, 3000, 30000)
-	runRing(t, ringFp6, 2500, 25000)
-	runRing(t, ringFp12, 1500, 15000)
-	runRing(t, ringFp12Cubic, 1200, 12000)
+	runRing(t, ringFp2, 6000, 30000)
+	runRing(t, ringFp4, 3000, 12000)
+	runRing(t, ringFp6, 2500, 10000)
+	runRing(t, ringFp12, 1500, 6000)
+	runRing(t, ringFp12Cubic, 1200, 5000)
 }
